@@ -157,7 +157,7 @@ pub fn judge_with<'a>(sel: &'a Selector<'a>, path: &JPath, doc: &RVal, bytes: &'
 
 /// a fixed arena: successive documents are copied to the SAME address, as a caller reusing a row
 /// buffer would do (state keyed by addresses inside a reused `Selector` becomes observable)
-fn at_fixed_address(bytes: &[u8]) -> &'static [u8] {
+pub fn at_fixed_address(bytes: &[u8]) -> &'static [u8] {
     thread_local! {
         static ARENA: *mut u8 = Box::leak(vec![0u8; 1 << 20].into_boxed_slice()).as_mut_ptr();
     }
